@@ -22,8 +22,6 @@ RULE = ('time traces: kind in {LTI,LTV,NLS} x random op lists (call, direct forw
         'histories of 4..14 ops (call, direct, reset, systime, set_refpoint with given/None state,input,t, reads); '
         'a case = one op of a trace / one batch item / one linearisation read; non-trivial = non-zero data; distinct by value')
 
-KEY_LTV = 'ltv-set_refpoint-default-t-raises'
-KEY_ALIAS = 'nls-set_refpoint-default-t-aliases-systime'
 
 
 def shard(items, n):
@@ -83,7 +81,7 @@ def t_poly(e):
 def t_src(e):
     k = e[0]
     if k == 'c':
-        return repr(float(e[1]))
+        return 'K(%r)' % float(e[1])
     if k == 'x':
         return 'x[%d]' % e[1]
     if k == 'u':
@@ -156,17 +154,18 @@ def t_size(e):
 
 def make_nls(pp, torch, fs, gs):
     """an NLS subclass whose state_transition / observation are the compiled trees"""
-    F_ = eval('lambda x, u, tt, torch: (%s,)' % ', '.join(t_src(f) for f in fs))
-    G_ = eval('lambda x, u, tt, torch: (%s,)' % ', '.join(t_src(g) for g in gs))
+    K = lambda v: torch.tensor(v, dtype=torch.float64)          # constants are 0-dim tensors
+    F_ = eval('lambda x, u, tt, torch, K: (%s,)' % ', '.join(t_src(f) for f in fs))
+    G_ = eval('lambda x, u, tt, torch, K: (%s,)' % ', '.join(t_src(g) for g in gs))
 
     class Tree(pp.module.NLS):
         def state_transition(self, x, u, t=None):
             tt = torch.as_tensor(t).to(x.dtype).reshape(-1)[0]
-            return torch.stack([torch.as_tensor(e, dtype=x.dtype) for e in F_(x, u, tt, torch)])
+            return torch.stack([torch.as_tensor(e, dtype=x.dtype) for e in F_(x, u, tt, torch, K)])
 
         def observation(self, x, u, t=None):
             tt = torch.as_tensor(t).to(x.dtype).reshape(-1)[0]
-            return torch.stack([torch.as_tensor(e, dtype=x.dtype) for e in G_(x, u, tt, torch)])
+            return torch.stack([torch.as_tensor(e, dtype=x.dtype) for e in G_(x, u, tt, torch, K)])
     return Tree()
 
 
@@ -276,7 +275,7 @@ def doc_time(kind, t0, ops):
     return tr
 
 
-def check_time_doc(pp, torch, c):
+def check_time_doc(pp, torch, c, ignore=()):
     """returns (key, description) of the first departure from the documented behaviour, or None"""
     ops = [tuple(o) for o in c['ops']]
     got = run_time_impl(pp, torch, c['sys'], c['t0'], ops)
@@ -284,10 +283,11 @@ def check_time_doc(pp, torch, c):
     for i, (g, e) in enumerate(zip(got, exp)):
         if g != e:
             o = ops[i]
-            if g[1] and c['sys'] == 'LTV' and o[0] == 'setref' and o[1] is None and g[0] == e[0]:
-                return KEY_LTV, 'LTV.set_refpoint(state, input) with the default t=None raises (documented: the most recent timestamp is taken); history %s' % (ops[:i + 1],)
             what = 'raises' if g[1] else 'leaves systime=%d, documented %d' % (g[0], e[0])
-            return 'time:%s:%s' % (c['sys'], o[0]), '%s from t0=%d after ops %s: op %s %s' % (c['sys'], c['t0'], ops[:i], o, what)
+            key = 'time:%s:%s%s' % (c['sys'], o[0], ':raises' if g[1] else '')
+            if key in ignore:
+                continue
+            return key, '%s from t0=%d after ops %s: op %s %s' % (c['sys'], c['t0'], ops[:i], o, what)
     return None
 
 
@@ -555,7 +555,7 @@ def doc_ltv(c, b):
     return tr
 
 
-def check_ltv_doc(pp, torch, c):
+def check_ltv_doc(pp, torch, c, ignore=()):
     c = dict(c, ops=[tuple(o) for o in c['ops']])
     got = run_ltv_impl(pp, torch, c)
     nb = 1 if c['b'] is None else c['b']
@@ -565,8 +565,471 @@ def check_ltv_doc(pp, torch, c):
             gg = (g[0], g[1], [F(v) for v in g[2][b]])
             if gg != e:
                 o = c['ops'][i]
-                if g[1] and o[0] == 'setref' and o[1] is None and g[0] == e[0]:
-                    return KEY_LTV, 'LTV.set_refpoint() with the default t=None raises (documented: the most recent timestamp is taken)'
+                if 'ltv:%s' % o[0] in ignore:
+                    continue
                 return 'ltv:%s' % o[0], 'time-indexed LTV (T=%d) batch item %d op %d %s: got (time, raised, next++obs)=%s, equations give %s' % (
                     c['T'], b, i, o, (g[0], g[1], g[2][b]), (e[0], e[1], [float(v) for v in e[2]]))
     return None
+
+
+# ------------------------------------------------------------------------------------ NLS histories
+# nop = ('call', x, u) | ('direct', x, u, t) | ('reset', v) | ('settime', v) | ('setref', ox, ou, ot) | ('read',)
+#       ot = None | ('i', int) (int64 tensor) | ('f', dyadic) (float64 tensor)
+def gen_nls_case(rng, trig=False):
+    nx, nu = rng.randint(1, 3), rng.randint(1, 3)
+    nf, ng = nx, rng.randint(1, 2)
+    depth = rng.randint(1, 3) if trig else rng.randint(1, 4)
+    fs = [gen_tree(rng, nx, nu, depth, rng.randint(1, 4), trig) for _ in range(nf)]
+    gs = [gen_tree(rng, nx, nu, depth, rng.randint(1, 4), trig) for _ in range(ng)]
+    return dict(kind='nls', nx=nx, nu=nu, fs=fs, gs=gs, t0=rng.randint(-3, 8))
+
+
+def gen_nls_ops(rng, c, n):
+    nx, nu = c['nx'], c['nu']
+    ops, called, hasref = [], False, False
+    for _ in range(n):
+        k = rng.random()
+        if k < 0.25:
+            ops.append(('call', dyvec(rng, nx), dyvec(rng, nu)))
+            called = True
+        elif k < 0.33:
+            ops.append(('direct', dyvec(rng, nx), dyvec(rng, nu), rng.choice([float(rng.randint(-4, 12)), dy(rng)])))
+        elif k < 0.42:
+            ops.append(('reset', rng.randint(-4, 12)))
+        elif k < 0.50:
+            ops.append(('settime', rng.randint(-4, 12)))
+        elif k < 0.72:
+            both = rng.random() < 0.5
+            if called and not both:
+                ox = dyvec(rng, nx) if rng.random() < 0.5 else None
+                ou = dyvec(rng, nu) if rng.random() < 0.5 else None
+            elif both or rng.random() < 0.8:
+                ox, ou = dyvec(rng, nx), dyvec(rng, nu)
+            else:
+                ox, ou = None, None          # nothing to fall back on: raises before anything is stored
+            ot = rng.choice([None, None, ('i', rng.randint(-4, 12)), ('f', dy(rng))])
+            ops.append(('setref', ox, ou, ot))
+            hasref = hasref or called or ox is not None
+        else:
+            ops.append(('read',))
+    return ops
+
+
+def run_nls_impl(pp, torch, c, ops):
+    """-> [(time, raised, flat outputs)]"""
+    f64 = torch.float64
+    s = make_nls(pp, torch, c['fs'], c['gs'])
+    s.reset(c['t0'])
+    V = lambda v: torch.tensor(v, dtype=f64)
+    tr = []
+    for o in ops:
+        raised, out = False, []
+        try:
+            if o[0] == 'call':
+                nx, y = s(V(o[1]), V(o[2]))
+                out = tolist(nx) + tolist(y)
+            elif o[0] == 'direct':
+                t = V(o[3])
+                out = tolist(s.state_transition(V(o[1]), V(o[2]), t)) + tolist(s.observation(V(o[1]), V(o[2]), t))
+            elif o[0] == 'reset':
+                s.reset(o[1])
+            elif o[0] == 'settime':
+                s.systime = o[1]
+            elif o[0] == 'setref':
+                ot = o[3]
+                t = None if ot is None else (torch.tensor(int(ot[1])) if ot[0] == 'i' else V(ot[1]))
+                s.set_refpoint(None if o[1] is None else V(o[1]), None if o[2] is None else V(o[2]), t)
+            else:
+                out = read_lin(s)
+        except Exception:
+            raised = True
+        tr.append((int(s.systime), raised, out))
+    return tr
+
+
+def coq_nop(o, lit):
+    vl = lambda v: coq_list(lit(a) for a in v)
+    k = o[0]
+    if k == 'call':
+        return '(NCall %s %s)' % (vl(o[1]), vl(o[2]))
+    if k == 'direct':
+        return '(NDirect %s %s %s)' % (vl(o[1]), vl(o[2]), lit(o[3]))
+    if k == 'reset':
+        return '(NReset %s%%Z)' % zlit(o[1])
+    if k == 'settime':
+        return '(NSetTime %s%%Z)' % zlit(o[1])
+    if k == 'setref':
+        ot = 'None' if o[3] is None else '(Some %s)' % lit(o[3][1])
+        return '(NSetRef %s %s %s)' % ('None' if o[1] is None else '(Some %s)' % vl(o[1]), 'None' if o[2] is None else '(Some %s)' % vl(o[2]), ot)
+    return 'NRead'
+
+
+def sym_lin(c, x, u, t):
+    """sympy: (A, B, C, D, f, g) at the point, exact when the data are rationals and the trees polynomial"""
+    import sympy as sp
+    X = sp.symbols('x0:%d' % c['nx'])
+    U = sp.symbols('u0:%d' % c['nu'])
+    T = sp.Symbol('t')
+    R = lambda v: sp.Rational(F(v).numerator, F(v).denominator)
+    sub = dict(zip(X, map(R, x)))
+    sub.update(zip(U, map(R, u)))
+    sub[T] = R(t)
+    fs = [t_sym(f, X, U, T) for f in c['fs']]
+    gs = [t_sym(g, X, U, T) for g in c['gs']]
+    J = lambda es, vs: [[sp.diff(e, v).subs(sub) for v in vs] for e in es]
+    return J(fs, X), J(fs, U), J(gs, X), J(gs, U), [e.subs(sub) for e in fs], [e.subs(sub) for e in gs]
+
+
+def check_nls_doc(pp, torch, c, ops, exact=True, ignore=()):
+    """the property, checked on the implementation along the history: at every read, A,B,C,D are the
+    Jacobians at the reference point (x*, u*, t* = the given t or the time when set_refpoint ran) and
+    A x* + B u* + c1 = f(x*,u*,t*), C x* + D u* + c2 = g(x*,u*,t*); times follow the counter; documented
+    calls do not raise"""
+    import sympy as sp
+    ops = [tuple(o) for o in ops]
+    got = run_nls_impl(pp, torch, c, ops)
+    t, last, ref = c['t0'], None, None
+    for i, (o, g) in enumerate(zip(ops, got)):
+        expect_raise = False
+        if o[0] == 'call':
+            last, t = (o[1], o[2]), t + 1
+        elif o[0] in ('reset', 'settime'):
+            t = o[1]
+        elif o[0] == 'setref':
+            rx = o[1] if o[1] is not None else (last[0] if last else None)
+            ru = o[2] if o[2] is not None else (last[1] if last else None)
+            if rx is None or ru is None:
+                expect_raise = True          # no state / input to take: an error is the documented outcome
+            else:
+                ref = (rx, ru, t if o[3] is None else o[3][1], o[3] is None, t)
+        elif o[0] == 'read' and ref is None:
+            expect_raise = True
+        if g[0] != t:
+            return 'time:NLS:%s' % o[0], 'NLS history %s: systime=%d, documented %d' % (ops[:i + 1], g[0], t)
+        if g[1] != expect_raise:
+            return 'nls:%s:raises' % o[0], 'NLS history %s: last op %s' % (ops[:i + 1], 'raised' if g[1] else 'did not raise')
+        if o[0] == 'read' and not g[1]:
+            rx, ru, rt, dflt, tset = ref
+            A, B, C, D, f, gg = sym_lin(c, rx, ru, rt)
+            nx, nu, nf, ng = c['nx'], c['nu'], len(c['fs']), len(c['gs'])
+            out = g[2]
+            k = 0
+            imp = {}
+            for name, r_, c_ in (('A', nf, nx), ('B', nf, nu), ('C', ng, nx), ('D', ng, nu)):
+                imp[name] = [[out[k + a * c_ + b] for b in range(c_)] for a in range(r_)]
+                k += r_ * c_
+            imp['c1'], imp['c2'] = out[k:k + nf], out[k + nf:k + nf + ng]
+            tol = lambda scale: 0 if exact else 4 * K_EPS * EPS * max(1.0, scale)
+            xs = sum(abs(v) for v in rx) + sum(abs(v) for v in ru)
+            for name, ref_m, es in (('A', A, c['fs']), ('B', B, c['fs']), ('C', C, c['gs']), ('D', D, c['gs'])):
+                for a, row in enumerate(ref_m):
+                    sc = t_mag(es[a], rx, ru, rt)[1]
+                    for b, v in enumerate(row):
+                        d = abs(sp.Rational(F(imp[name][a][b]).numerator, F(imp[name][a][b]).denominator) - v)
+                        if (d != 0) if exact else (float(sp.N(d, 30)) > tol(sc)):
+                            key = 'nls:jacobian:%s' % name
+                            if key in ignore:
+                                continue
+                            return key, ('NLS f=%s g=%s after history %s: %s[%d][%d]=%r but the Jacobian at the reference point (x*=%s,u*=%s,t*=%s) is %s'
+                                         % ([t_src(e) for e in c['fs']], [t_src(e) for e in c['gs']], ops[:i + 1], name, a, b, imp[name][a][b], rx, ru, rt, sp.N(v, 20))
+                                         + ('; set_refpoint ran with t=None at time %d, the time is now %d' % (tset, t) if dflt else ''))
+            for name, M, N, cv, val, es in (('c1', imp['A'], imp['B'], imp['c1'], f, c['fs']), ('c2', imp['C'], imp['D'], imp['c2'], gg, c['gs'])):
+                aff = doc_affine(M, N, cv, rx, ru)
+                for a in range(len(val)):
+                    m = t_mag(es[a], rx, ru, rt)
+                    d = abs(sp.Rational(aff[a].numerator, aff[a].denominator) - val[a])
+                    if (d != 0) if exact else (float(sp.N(d, 30)) > tol(m[0] + m[1] * xs) * 4):
+                        key = 'nls:affine:%s' % name
+                        if key in ignore:
+                            continue
+                        return key, ('NLS f=%s g=%s after history %s: affine model at the reference point gives %s for component %d, the function value there is %s (%s)'
+                                     % ([t_src(e) for e in c['fs']], [t_src(e) for e in c['gs']], ops[:i + 1], float(aff[a]), a, sp.N(val[a], 20), name))
+    return None
+
+
+def nls_tols(c, x, u, t):
+    """[(component index in the flat read, tolerance)]"""
+    nx, nu = c['nx'], c['nu']
+    xs = sum(abs(v) for v in x) + sum(abs(v) for v in u)
+    tl = []
+    for es, ncol in ((c['fs'], nx), (c['fs'], nu), (c['gs'], nx), (c['gs'], nu)):
+        for e in es:
+            tl += [K_EPS * EPS * max(1.0, t_mag(e, x, u, t)[1])] * ncol
+    for es in (c['fs'], c['gs']):
+        for e in es:
+            m = t_mag(e, x, u, t)
+            tl.append(K_EPS * EPS * max(1.0, m[0] + m[1] * xs))
+    return tl
+
+
+# ------------------------------------------------------------------------------------ directed regression cases
+# the two defects repaired in /repo 6b6eb73 (LTV.set_refpoint() raised; NLS.set_refpoint(t=None) aliased the
+# live time buffer): ordinary directed cases now - if a defect returns it is reported as a VIOLATION
+REGRESSION_NLS = dict(kind='nls', nx=1, nu=1, fs=[('*', ('t',), ('x', 0))], gs=[('x', 0)], t0=1,
+                      ops=[('setref', [1.0], [0.0], None), ('call', [1.0], [0.0]), ('read',)])
+REGRESSION_TIME = dict(kind='time', sys='LTV', t0=4, ops=[('call',), ('setref', None), ('call',)])
+
+
+def doc_check(pp, torch, c, ignore=()):
+    k = c['kind']
+    if k == 'time':
+        return check_time_doc(pp, torch, c, ignore)
+    if k == 'lin':
+        return check_lin_doc(pp, torch, c)
+    if k == 'lti':
+        return check_lti_doc(pp, torch, c)
+    if k == 'ltv':
+        return check_ltv_doc(pp, torch, c, ignore)
+    if k == 'nls':
+        return check_nls_doc(pp, torch, c, c['ops'], exact=all(t_poly(tuple_tree(e)) for e in c['fs'] + c['gs']), ignore=ignore)
+    return None
+
+
+def departures(pp, torch, c):
+    """every distinct departure from the documented behaviour on this case (one departure early in a
+    history must not hide a different one later)"""
+    res, ignore = [], set()
+    for _ in range(4):
+        r = doc_check(pp, torch, c, ignore)
+        if r is None:
+            break
+        res.append(r)
+        ignore.add(r[0])
+    return res
+
+
+def shrink(pp, torch, c, key):
+    """shortest prefix of the history that still shows the departure `key`"""
+    if c.get('kind') not in ('time', 'ltv', 'nls'):
+        return c
+    for n in range(1, len(c['ops'])):
+        d = dict(c, ops=list(c['ops'][:n]))
+        if any(r[0] == key for r in departures(pp, torch, d)):
+            return d
+    return c
+
+
+def tuple_tree(e):
+    return tuple(tuple_tree(a) if isinstance(a, (list, tuple)) else a for a in e)
+
+
+def norm_case(c):
+    """undo the JSON round trip (lists -> tuples for trees)"""
+    c = dict(c)
+    if c.get('kind') == 'nls':
+        c['fs'] = [tuple_tree(e) for e in c['fs']]
+        c['gs'] = [tuple_tree(e) for e in c['gs']]
+    return c
+
+
+def replay(ctx, case):
+    pp = import_pypose()
+    import torch
+    c = norm_case(case)
+    key = c.get('key')
+    for r in departures(pp, torch, c):
+        if key is None or r[0] == key:
+            return r[1]
+    return None
+
+
+# ------------------------------------------------------------------------------------ the check
+HDR = 'From PV Require Import Base.Num Model.Dynamics.\nFrom Coq Require Import List ZArith QArith Bool. Import ListNotations.\n'
+REP_OPS = [('call',), ('direct', 'forward'), ('direct', 'st'), ('direct', 'obs'), ('direct', 'read'), ('reset', 5, False), ('reset', -2, True),
+           ('settime', 7, False), ('settime', 3, True), ('setref', None), ('setref', 9)]
+
+
+def coq_trace(tr):
+    return coq_list('(%s%%Z, %s, %s)' % (zlit(t), zb(r), qlist(o)) for t, r, o in tr)
+
+
+def run(ctx):
+    pp = import_pypose()
+    import torch
+    ctx.rule = RULE
+    rng = ctx.rng
+    files, table = [], {}
+
+    def report_all(case, rs=None):
+        """report every departure of the documented behaviour on this case; True iff there was one"""
+        case = {k: v for k, v in case.items() if k not in ('trace', 'components')}
+        rs = departures(pp, torch, case) if rs is None else rs
+        for key, what in rs:
+            if key in ctx.known_hit or any(v['key'] == key for v in ctx.violations):
+                continue                      # one replay per key
+            ctx.violation(key, what, dict(shrink(pp, torch, case, key), key=key))
+        return bool(rs)
+
+    # ---------------------------------------------------------------- 1. time traces
+    tcases = [dict(REGRESSION_TIME)]
+    for kind in ('LTI', 'LTV', 'NLS'):
+        for a in REP_OPS:                      # directed: every operation after every operation
+            for b in REP_OPS:
+                tcases.append(dict(kind='time', sys=kind, t0=2, ops=[a, b]))
+        for _ in range(ctx.scale(40, 600)):
+            tcases.append(dict(kind='time', sys=kind, t0=rng.randint(-8, 40), ops=[gen_top(rng, kind) for _ in range(rng.randint(1, 40))]))
+    lines = []
+    for i, c in enumerate(tcases):
+        tr = run_time_impl(pp, torch, c['sys'], c['t0'], c['ops'])
+        c['trace'] = tr
+        for k, (o, (t, r)) in enumerate(zip(c['ops'], tr)):
+            ctx.case(('time', c['sys'], c['t0'], repr(c['ops'][:k + 1])), nontrivial=True,
+                     branch='time:%s:%s%s' % (c['sys'], o[0], ':raised' if r else ''))
+        ctx.traces += 1
+        lines.append('(%d%%nat, (K%s, %s%%Z, %s, %s))' % (i, c['sys'], zlit(c['t0']), coq_list(coq_op(o) for o in c['ops']),
+                                                       coq_list('(%s%%Z, %s)' % (zlit(t), zb(r)) for t, r in tr)))
+        report_all(c)
+    for k, sh in enumerate(shard(lines, 150)):
+        files.append(('time_%03d' % k, HDR + 'Eval vm_compute in time_bad %s.\n' % coq_list(sh)))
+    table['time'] = tcases
+    ctx.samples.append(dict(kind='time', sys=tcases[-1]['sys'], t0=tcases[-1]['t0'], ops=tcases[-1]['ops'][:6], trace=tcases[-1]['trace'][:6]))
+
+    # ---------------------------------------------------------------- 2. bmv / bvv / bvmv
+    lmeta, lines = [], []
+    for _ in range(ctx.scale(150, 2500)):
+        c = gen_lin_case(torch, rng)
+        try:
+            its = run_lin_impl(pp, torch, c)
+        except Exception as e:
+            ctx.mismatch('lin', c, 'raised %r' % (e,))
+            continue
+        for it in its:
+            i = len(lmeta)
+            lmeta.append(c)
+            ctx.case(('lin', c['op'], repr(it)), nontrivial=any(v != 0 for v in it['out']), branch='%s:batch=%s,%s' % (['bmv', 'bvv', 'bvmv'][c['op']], c['sa'], c['sb']))
+            lines.append('(%d%%nat, (%d%%nat, %s, %s, %s, %s))' % (i, c['op'], qmat(it['M']), qlist(it['l']), qlist(it['r']), qlist(it['out'])))
+    for k, sh in enumerate(shard(lines, 300)):
+        files.append(('lin_%03d' % k, HDR + 'Eval vm_compute in lin_bad %s.\n' % coq_list(sh)))
+    table['lin'] = lmeta
+
+    # ---------------------------------------------------------------- 3. LTI steps
+    smeta, lines = [], []
+    for _ in range(ctx.scale(120, 2000)):
+        c = gen_lti_case(torch, rng)
+        try:
+            its = run_lti_impl(pp, torch, c)
+        except Exception as e:
+            ctx.mismatch('lti', c, 'raised %r' % (e,))
+            continue
+        for it in its:
+            i = len(smeta)
+            smeta.append(c)
+            ctx.case(('lti', repr(it)), nontrivial=any(v != 0 for v in it['nx'] + it['y']),
+                     branch='lti:batch=%s,%s:c1=%s:c2=%s%s' % (c['sa'], c['sb'], c['c1'] is not None, c['c2'] is not None, ':0-dim' if c['scalar'] else ''))
+            lines.append('(%d%%nat, ((%s, %s, %s, %s, %s, %s), %s, %s, %s, %s))' % (
+                i, qmat(it['A']), qmat(it['B']), qmat(it['C']), qmat(it['D']), qopt(it['c1']), qopt(it['c2']),
+                qlist(it['x']), qlist(it['u']), qlist(it['nx']), qlist(it['y'])))
+        if len(smeta) % 97 == 1:
+            ctx.samples.append(dict(kind='lti', item=its[0]))
+    for k, sh in enumerate(shard(lines, 200)):
+        files.append(('lti_%03d' % k, HDR + 'Eval vm_compute in lti_bad %s.\n' % coq_list(sh)))
+    table['lti'] = smeta
+
+    # ---------------------------------------------------------------- 4. LTV traces
+    vmeta, lines = [], []
+    for _ in range(ctx.scale(60, 800)):
+        c = gen_ltv_case(torch, rng)
+        tr = run_ltv_impl(pp, torch, c)
+        nb = 1 if c['b'] is None else c['b']
+        sel = (lambda v, b: v) if c['b'] is None else (lambda v, b: None if v is None else v[b])
+        for b in range(nb):
+            i = len(vmeta)
+            vmeta.append(c)
+            q3 = lambda v: coq_list(qmat(m) for m in v)
+            lines.append('(%d%%nat, ((%s%%Z, %s, %s, %s, %s, %s, %s), %s%%Z, %s, %s, %s))' % (
+                i, zlit(c['T']), q3(sel(c['A'], b)), q3(sel(c['B'], b)), q3(sel(c['C'], b)), q3(sel(c['D'], b)),
+                qopt(sel(c['c1'], b), qmat), qopt(sel(c['c2'], b), qmat), zlit(c['t0']), qlist(sel(c['x0'], b)),
+                coq_list(coq_lop(o, b, nb) for o in c['ops']), coq_trace([(t, r, o[b]) for t, r, o in tr])))
+        for o, (t, r, out) in zip(c['ops'], tr):
+            ctx.case(('ltv', len(vmeta), t, repr(out)), nontrivial=True, branch='ltv:%s%s%s' % (o[0], ':raised' if r else '', ':batched' if c['b'] else ''))
+        ctx.traces += 1
+    for k, sh in enumerate(shard(lines, 40)):
+        files.append(('ltv_%03d' % k, HDR + 'Eval vm_compute in ltv_bad %s.\n' % coq_list(sh)))
+    table['ltv'] = vmeta
+
+    # ---------------------------------------------------------------- 5. NLS histories, polynomial trees (exact)
+    nmeta, lines = [], []
+    ncases = [dict(REGRESSION_NLS)]
+    d = gen_nls_case(rng)                      # directed: every op kind, both raising situations, every t flavour
+    X, U = lambda: dyvec(rng, d['nx']), lambda: dyvec(rng, d['nu'])
+    d['ops'] = [('read',), ('setref', None, None, None), ('setref', X(), U(), ('i', 3)), ('read',), ('call', X(), U()), ('read',),
+                ('setref', None, None, None), ('read',), ('reset', 6), ('read',), ('setref', X(), None, ('f', 0.75)), ('settime', -2), ('read',),
+                ('direct', X(), U(), 2.5), ('setref', None, U(), None), ('read',), ('call', X(), U()), ('read',)]
+    ncases.append(d)
+    for _ in range(ctx.scale(120, 1200)):
+        c = gen_nls_case(rng)
+        c['ops'] = gen_nls_ops(rng, c, rng.randint(4, 14))
+        ncases.append(c)
+    for i, c in enumerate(ncases):
+        tr = run_nls_impl(pp, torch, c, c['ops'])
+        nmeta.append(c)
+        for o, (t, r, out) in zip(c['ops'], tr):
+            ctx.case(('nls', i, t, repr(out)), nontrivial=bool(out) or o[0] != 'read',
+                     branch='nls:%s%s' % (o[0] + ((':t=' + ('None' if o[3] is None else o[3][0]) + (':x=last' if o[1] is None else '')) if o[0] == 'setref' else ''), ':raised' if r else ''))
+        ctx.traces += 1
+        lines.append('(%d%%nat, (%s, %s, %s%%Z, %s, %s))' % (i, coq_list(t_coq(e, qlit) for e in c['fs']), coq_list(t_coq(e, qlit) for e in c['gs']),
+                                                            zlit(c['t0']), coq_list(coq_nop(o, qlit) for o in c['ops']), coq_trace(tr)))
+        report_all(c)
+        if i in (1, 5):
+            ctx.samples.append(dict(kind='nls', fs=[t_src(e) for e in c['fs']], gs=[t_src(e) for e in c['gs']], ops=c['ops'][:4], trace=tr[:4]))
+    for k, sh in enumerate(shard(lines, 25)):
+        files.append(('nls_%03d' % k, HDR + 'Eval vm_compute in nls_bad %s.\n' % coq_list(sh)))
+    table['nls'] = nmeta
+
+    # ---------------------------------------------------------------- run Coq (exact route)
+    res = run_case_files('C15', files, timeout=600)
+    for name, (rc, out) in sorted(res.items()):
+        ev = parse_evals(out)
+        if rc != 0 or len(ev) != 1:
+            ctx.obligation_broken('correspondence-file:' + name, out[-1500:])
+            continue
+        fam = name.split('_')[0]
+        for i in parse_nat_list(ev[0]):
+            c = table[fam][i]
+            ctx.mismatch(fam, {k: v for k, v in c.items() if k != 'trace'})
+
+    # ---------------------------------------------------------------- 6. NLS linearisation, trig trees (enclosure)
+    emeta, ecases = [], []
+    for j in range(ctx.scale(60, 900)):
+        c = gen_nls_case(rng, trig=(j % 6 != 0))
+        x, u = dyvec(rng, c['nx']), dyvec(rng, c['nu'])
+        ot = rng.choice([('i', rng.randint(-3, 9)), ('f', dy(rng))])
+        c['ops'] = [('setref', x, u, ot), ('read',)]
+        tr = run_nls_impl(pp, torch, c, c['ops'])
+        if tr[1][1] or any(not math.isfinite(v) for v in tr[1][2]):
+            ctx.mismatch('nls-enc', c, 'read raised / non-finite')
+            continue
+        out, tl = tr[1][2], nls_tols(c, x, u, ot[1])
+        assert len(out) == len(tl), (len(out), len(tl))
+        i = len(emeta)
+        emeta.append(c)
+        ctx.case(('nls-enc', repr(c['fs']), repr(c['gs']), tuple(x), tuple(u), ot), nontrivial=any(v != 0 for v in out),
+                 branch='nls-lin:%s' % ('trig' if not all(t_poly(e) for e in c['fs'] + c['gs']) else 'poly'),
+                 sample=dict(kind='nls-lin', fs=[t_src(e) for e in c['fs']], gs=[t_src(e) for e in c['gs']], x=x, u=u, t=ot[1], impl=out) if i == 2 else None)
+        ecases.append(dict(idx=i, expr='nls_lin_l %s %s %s %s %s' % (coq_list(t_coq(e, rlit) for e in c['fs']), coq_list(t_coq(e, rlit) for e in c['gs']),
+                                                                     rlist(x), rlist(u), rlit(ot[1])),
+                           comps=[(k, out[k], tl[k]) for k in range(len(out))]))
+    r = run_enclosure('C15', 'Model.Dynamics', ecases, prec=120, per_file=6, timeout_goal=120)
+    for name, out in r['broken']:
+        ctx.obligation_broken('correspondence-file:' + name, out)
+    ctx.notes.append('enclosure: %d linearisations proved within %d eps * magnitude, %d proved outside, %d undecided' % (len(r['ok']), K_EPS, len(set(i for i, _ in r['bad'])), len(r['undecided'])))
+    ctx.hist['nls-lin:undecided'] = len(r['undecided'])
+    ctx.traces += len(r['ok'])
+    if len(r['undecided']) > max(3, len(ecases) // 10):
+        ctx.obligation_broken('enclosure-undecided', '%d of %d cases neither proved nor refuted, e.g. %s' % (len(r['undecided']), len(ecases), [emeta[i] for i in r['undecided'][:2]]))
+    for i in sorted(set(i for i, _ in r['bad'])):
+        ctx.mismatch('nls-enc', dict(emeta[i], components=[k for j, k in r['bad'] if j == i]))
+
+    # ---------------------------------------------------------------- search: the property itself, on the implementation
+    perfam = {}
+    for m in ctx.mismatches:
+        perfam.setdefault(m['family'], []).append(m)
+    for m in [x for fam in perfam.values() for x in fam[:20]]:
+        c = m['case']
+        if m['family'] == 'nls-enc':
+            rr = check_nls_doc(pp, torch, c, c['ops'], exact=False)
+            found = report_all(c, [] if rr is None else [rr])
+        else:
+            found = report_all(c)
+        if found:
+            m['explained'] = True
